@@ -15,6 +15,7 @@ EXTENDS GoValues, SequencesExt
 CONSTANT Family
 
 LitA == Lit(S(cA))
+LitQ == Lit(S(<<105, 116, 39, 115>>))          \* it's : spelled 'it\'s' as a raw string
 IdxI(n) == IdxE(Identity, Index(n))
 IdxL(l, n) == IdxE(l, Index(n))
 FieldsQ == <<fA, fB, fC, fE>>
@@ -31,8 +32,8 @@ ErrStep0 == SliceOf(Current, NoneP, NoneP, IntP(0))              \* @[::0] : err
 
 (* ---------------- C01: core fragment ------------------------------------------------------ *)
 CoreLeaves == SeqSet(FieldsQ) \cup {IdxI(IdxsQ[n]) : n \in 1..Len(IdxsQ)}
-              \cup {Current, Lit(I(1)), LitA, Lit(Null), Lit(A0), Lit(O1(cA, I(1))), Lit(A2(I(1), S(cB)))}
-CorePool == <<fA, fB, fC, IdxI(0), IdxI(-1), Current, Lit(I(1)), Lit(O1(cA, I(1))), Lit(A2(I(1), S(cB)))>>
+              \cup {Current, Lit(I(1)), LitA, Lit(Null), Lit(A0), Lit(O1(cA, I(1))), Lit(A2(I(1), S(cB))), LitQ}
+CorePool == <<fA, fB, fC, IdxI(0), IdxI(-1), Current, Lit(I(1)), Lit(O1(cA, I(1))), Lit(A2(I(1), S(cB))), LitQ>>
 CoreNS == 14
 CoreDim(s) == CASE s = 1 -> Len(FieldsQ) [] s = 2 -> Len(IdxsQ) [] s \in {5, 8} -> 1 [] OTHER -> Len(CorePool)
 CoreWrap(s, x, k) ==
@@ -122,7 +123,9 @@ OpWrap(s, x, k) ==
     [] s = 17 -> Not(x)
 (* the same operators with both operands taken from the document, also inside filter conditions *)
 OpDocL1 == SetToSeq(
-      {Cmp(op, fA, fB) : op \in CmpOps} \cup {Or(fA, fB), And(fA, fB), Not(fA), Not(Not(fA)), Or(fA, ErrAbs), And(fA, ErrAbs)}
+      {Cmp(op, fA, fB) : op \in CmpOps} \cup {Not(Cmp(op, fA, fB)) : op \in CmpOps} \cup {Not(Or(fA, fB)), Not(And(fA, fB)), Or(Not(fA), fB), And(Cmp("lt", fA, fB), fA)}
+ \cup {Or(fA, fB), And(fA, fB), Not(fA), Not(Not(fA)), Or(fA, ErrAbs), And(fA, ErrAbs)}
+ \cup {Filt(Identity, Identity, Not(Cmp(op, fA, fB))) : op \in {"lt", "gte", "eq"}}
  \cup {Filt(Identity, Identity, Cmp(op, fA, fB)) : op \in CmpOps}
  \cup {Filt(Identity, fA, c) : c \in {Or(fA, fB), And(fA, fB), Not(fA), fA, Or(fA, ErrAbs)}}
  \cup {Filt(Identity, Identity, Cmp(op, fA, Lit(I(1)))) : op \in CmpOps})
@@ -198,6 +201,20 @@ FnNestWrap(s, x, k) ==
 FnDocVals == {I(1), I(-1), Half, S(cAB), S(cEmpty), A0, A3(I(2), Half, I(-1)), A2(S(cB), S(cA)), A2(I(1), S(cA)), O0, O2(cA, I(1), cB, I(2)), Null,
               Bool(TRUE), A2(O1(cA, I(2)), O1(cA, I(1))), A2(O1(cA, S(cB)), O1(cA, S(cA)))}
 DocsFnNest == {O2(cA, x, cB, y) : x \in FnDocVals, y \in {A2(O1(cA, I(-1)), O1(cA, S(cA))), A2(I(1), S(cAB)), O1(cA, I(1)), A0, A2(A1(I(1)), A1(I(2)))}} \cup FnDocVals
+
+(* larger arrays with tied keys: stability of sort / sort_by, first extremal element of max_by / min_by, on lengths
+   where library sort routines switch algorithms (12 / 13, 20, 33 elements) *)
+BigElem(i) == Obj({<<cA, I(i % 3)>>, <<cB, S(<<97 + (i % 2)>>)>>, <<<<105, 100>>, I(i)>>})
+BigArr(n) == Arr([i \in 1..n |-> BigElem(i)])
+BigNums(n) == Arr([i \in 1..n |-> I((i * 7) % 5)])
+BigStrs(n) == Arr([i \in 1..n |-> S(<<97 + ((i * 5) % 3), 97 + (i % 2)>>)])
+FnBigL1 == SetToSeq({C2(f, Current, Ref(k)) : f \in {"sort_by", "max_by", "min_by"}, k \in {fA, fB, Field(<<105, 100>>), Current, C1("to_string", fA)}}
+                    \cup {C1(f, Current) : f \in {"sort", "reverse", "max", "min", "length", "sum", "avg"}}
+                    \cup {C2("map", Ref(fA), Current), Proj(Current, fA), SliceOf(Current, NoneP, NoneP, IntP(-1)), SliceOf(Current, IntP(1), NoneP, IntP(3)),
+                          Filt(Current, Field(<<105, 100>>), Cmp("eq", fA, Lit(I(1)))), Pipe(C2("sort_by", Current, Ref(fA)), Proj(Identity, Field(<<105, 100>>))),
+                          Pipe(C2("sort_by", Current, Ref(fB)), Proj(Identity, Field(<<105, 100>>))), C2("join", Lit(S(<<44>>)), Current), C1("sort", Proj(Current, fB)),
+                          Pipe(Proj(Current, fA), C1("sort", Current)), Pipe(Proj(Current, fB), C1("max", Current)), Proj(Flat(MSL(<<Current, Current>>)), Field(<<105, 100>>))})
+DocsFnBig == {BigArr(n) : n \in {12, 13, 20, 33}} \cup {BigNums(n) : n \in {13, 21}} \cup {BigStrs(n) : n \in {13, 21}}
 
 (* C10: the full matrix name x arity x argument-type tuple, decoded from the index *)
 Reps == <<Lit(Null), Lit(Bool(TRUE)), Lit(I(0)), Lit(S(cA)), Lit(A0), Lit(A1(I(1))), Lit(A1(S(cA))), Lit(A2(A1(I(1)), O0)), Lit(O0), Lit(O1(cA, I(1))), Ref(fA)>>
@@ -324,7 +341,7 @@ RoVals == {A3(I(3), I(1), I(2)), A3(S(cB), S(cAB), S(cA)), A3(I(3), S(cA), I(1))
 DocsRo == {O2(cA, x, cB, y) : x \in RoVals, y \in RoVals} \cup RoVals
 
 (* ---------------- C15: pipe law, referential transparency -------------------------------------- *)
-MetaL1 == SetToSeq({fA, fB, fC, IdxI(0), IdxI(-1), Current, Lit(I(1)), LitA, Lit(Null), Lit(A2(I(1), S(cB))), Lit(O1(cA, I(1))),
+MetaL1 == SetToSeq({fA, fB, fC, IdxI(0), IdxI(-1), Current, Lit(I(1)), LitA, LitQ, Lit(S(<<39>>)), MSL(<<LitQ, fA>>), Lit(Null), Lit(A2(I(1), S(cB))), Lit(O1(cA, I(1))),
                     Sub(fA, fA), Sub(fA, fB), IdxL(fB, 0), IdxL(fB, -1), Pipe(fB, IdxI(1)), MSL(<<fA, fB>>), MSH(<<KV(cA, fB), KV(cB, fA)>>),
                     Proj(fB, Identity), Proj(fB, fA), Proj(Flat(fB), Identity), Filt(fB, Identity, fA), Filt(fB, fA, Cmp("gt", fA, Lit(I(1)))),
                     VProj(fA, Identity), VProj(Identity, fA), SliceOf(fB, IntP(1), NoneP, NoneP), SliceOf(fB, NoneP, NoneP, IntP(-1)),
@@ -420,13 +437,15 @@ DocsPrec == {
   A3(O3x(I(1), A1(I(2)), Bool(TRUE)), O2(cA, O1(cB, O1(cC, I(3))), cC, Bool(FALSE)), A1(O1(cA, I(4)))),
   O2(cA, A2(O3x(A1(I(1)), O2(cA, I(1), cC, I(1)), I(1)), O2(cB, A1(O1(cA, I(2))), cA, I(0))),
      cB, O1(<<120>>, O2(cB, O1(cA, I(9)), cA, O2(cA, I(1), cB, I(1))))),
-  O2(cA, I(1), cB, I(1)), O2(cA, Bool(FALSE), cB, I(0)), I(1), Null, A2(A2(I(1), I(2)), A2(I(0), I(3))) }
+  O2(cA, I(1), cB, I(1)), O2(cA, Bool(FALSE), cB, I(0)), I(1), Null, A2(A2(I(1), I(2)), A2(I(0), I(3))),
+  O2(cA, A2(A3(O1(cA, I(1)), O1(cA, I(2)), O2(cA, I(3), cB, I(4))), A2(O1(cA, I(5)), O1(cB, I(6)))), cB, A2(A2(I(1), I(2)), A3(I(3), I(4), I(5)))),
+  A2(A3(O1(cA, I(1)), O1(cA, I(2)), O1(cA, A2(I(7), I(8)))), A3(A2(I(1), I(2)), A1(I(3)), I(4))) }
 
 (* ---------------- family table ------------------------------------------------------------ *)
 L1 == CASE Family = "C01" -> CoreL1 [] Family = "C03" -> PrecL1 [] Family = "C02" -> ProjL1 [] Family = "C07" -> OpL1 [] Family = "C07d" -> OpDocL1
         [] Family = "C09" -> FnL1 [] Family = "C09n" -> FnNestL1 [] Family = "C10" -> <<>> [] Family = "C10d" -> MxDocL1
         [] Family = "C10k" -> ByL1 [] Family = "C11" -> ErrL1 [] Family = "C16" -> JsonL1
-        [] Family = "C08" -> <<>> [] Family = "C08i" -> SlIdxL1 [] Family = "C06" -> RoL1 [] Family = "C15" -> MetaL1 [] Family = "C18" -> NavL1 [] Family = "C18p" -> TypedL1
+        [] Family = "C08" -> <<>> [] Family = "C08i" -> SlIdxL1 [] Family = "C06" -> RoL1 [] Family = "C15" -> MetaL1 [] Family = "C18" -> NavL1 [] Family = "C18p" -> TypedL1 [] Family = "C09big" -> FnBigL1
 NS == CASE Family = "C01" -> CoreNS [] Family = "C03" -> PrecNS [] Family = "C06" -> RoNS [] Family = "C15" -> MetaNS [] Family = "C18" -> NavNS [] Family = "C02" -> ProjNS [] Family = "C07" -> OpNS [] Family = "C09" -> FnNS
         [] Family = "C09n" -> FnNestNS [] Family = "C11" -> CtxNS [] OTHER -> 0
 Dim(s) == CASE Family = "C01" -> CoreDim(s) [] Family = "C03" -> PrecDim(s) [] Family = "C06" -> RoDim(s) [] Family = "C15" -> MetaDim(s) [] Family = "C18" -> NavDim(s) [] Family = "C02" -> ProjDim(s) [] Family = "C07" -> OpDim(s) [] Family = "C09" -> FnDim(s)
@@ -435,9 +454,9 @@ Wrap(s, x, k) == CASE Family = "C01" -> CoreWrap(s, x, k) [] Family = "C03" -> P
                    [] Family = "C09" -> FnWrap(s, x, k) [] Family = "C09n" -> FnNestWrap(s, x, k) [] Family = "C11" -> CtxWrap(s, x, k)
 DocSet == CASE Family = "C01" -> DocsCore [] Family = "C03" -> DocsPrec [] Family = "C02" -> DocsProj [] Family \in {"C07", "C09", "C10", "C10k"} -> {Null}
             [] Family = "C07d" -> DocsOp [] Family = "C09n" -> DocsFnNest [] Family = "C10d" -> DocsMx [] Family = "C11" -> DocsCtx
-            [] Family = "C16" -> DocsJson [] Family \in {"C08", "C08i"} -> DocsSlice [] Family = "C06" -> DocsRo [] Family = "C15" -> DocsFnNest \cup DocsCtx [] Family \in {"C18", "C18p"} -> {J(GoDocs[i]) : i \in 1..Len(GoDocs)}
+            [] Family = "C16" -> DocsJson [] Family \in {"C08", "C08i"} -> DocsSlice [] Family = "C06" -> DocsRo [] Family = "C15" -> DocsFnNest \cup DocsCtx [] Family \in {"C18", "C18p"} -> {J(GoDocs[i]) : i \in 1..Len(GoDocs)} [] Family = "C09big" -> DocsFnBig
 (* number of wrapping levels: 1 = only L1; 2 = one Wrap; 3 = two nested Wraps *)
-Levels == CASE Family \in {"C07d", "C10d", "C10k", "C16", "C08i", "C18p"} -> 1 [] Family = "C08" -> 0 [] Family \in {"C01", "C07", "C11", "C03", "C15"} -> 3 [] Family = "C10" -> 0 [] OTHER -> 2
+Levels == CASE Family \in {"C07d", "C10d", "C10k", "C16", "C08i", "C18p", "C09big"} -> 1 [] Family = "C08" -> 0 [] Family \in {"C01", "C07", "C11", "C03", "C15"} -> 3 [] Family = "C10" -> 0 [] OTHER -> 2
 EmitL1 == Family \notin {"C09"}
 Styles == <<StMin, StFull, StQuoted>>
 WsOf(k) == CASE k = 1 -> "tight" [] k = 2 -> "space" [] k = 3 -> "mixed"
